@@ -6,6 +6,11 @@ HERE = os.path.dirname(os.path.dirname(os.path.abspath(__file__)))
 
 # id -> (category, technique, level text, level note, design ref)
 CHECKS = {
+ "C19": ("exploration",
+         "property-based testing against two independent layout calculators",
+         "Random struct definitions (nesting <= 3, scalars/vectors/enums/arrays/nested structs) used through every buffer element position are compiled with layout validation on; accept => the harness-computed HLSL and Metal layouts (size and every leaf offset) are identical; reject => the reported sizes/offsets equal the harness-computed ones. 40 000 (quick) / 1 000 000 (thorough) generated programs, shrunk on failure.",
+         "Trusted: the HLSL structured-buffer and Metal layout calculators in harness/src/c19.rs, written from the rule set in the property (half=2 bytes, double=8 bytes on both sides).",
+         "DESIGN.md section 3, C19"),
  "C11": ("exploration",
          "exhaustive enumeration + property-based testing against a reference model",
          "Every directive sequence over the 12-symbol alphabet up to length 6 (quick) / 8 (thorough) is enumerated and compared with a reference conditional-inclusion automaton; random longer sequences over an extended alphabet (#undef, #include, #pragma once) and random condition expressions (depth 5) are compared with a reference u64 evaluator with textual macro substitution. Exhaustive within the stated length, sampled beyond it.",
